@@ -271,7 +271,8 @@ def strategy():
     failcond = st.sampled_from([['bin', '>', ['bin', '/', ['num', '10'], ['num', '0']], ['num', '1']], ['bin', '>', ['ref', RAISING_CELL], ['num', '0']],
                                 ['bin', '=', ['call', 'YEAR', [['ref', TEXT_CELL]]], ['num', '1']]])
     number = st.integers(2, 99).map(lambda n: ['num', str(n)])
-    leafval = st.one_of(number, number, number, fail, ref, st.sampled_from([['str', 'yes'], ['str', 'no'], ['str', '#FF0000'], ['str', '#7'], ['ref', HASH_TEXT_CELL]]))
+    leafval = st.one_of(number, number, number, fail, ref, st.sampled_from([['str', 'yes'], ['str', 'no'], ['str', '#FF0000'], ['str', '#7'], ['ref', HASH_TEXT_CELL],
+                                                                            ['bool', True], ['bool', False], ['bool', True], ['num', '0'], ['num', '1']]))
 
     def nest(child):
         pair = st.tuples(cond, child)
